@@ -664,6 +664,7 @@ pub fn build_bench() -> i32 {
             patterns: pats.clone(),
             opts: BuildOpts { surface, kind, match_kind: MKind::LeftmostFirst, start_both: false, case_insensitive: false, dense_depth: dd, byte_classes: true, prefilter, via_ref: false },
             packed,
+            packed_cfg: 0,
         };
         let t = build_tsut(&spec);
         println!("BUILD {} ok={} {}ms", name, t.is_ok(), t0.elapsed().as_millis());
